@@ -18,6 +18,15 @@
 (* is observed).  `calls[a]` counts executions of the clone / drop          *)
 (* functions stored in the handles of allocation a ("functions of the       *)
 (* module that created the allocation", arc.rs:243-250).                    *)
+(*                                                                          *)
+(* Allocations made by FOREIGN code (a C or C++ host, another module with    *)
+(* its own reference-counting scheme): the three-word handle is all cglue    *)
+(* knows.  Such a clone function may hand out a NEW handle object per clone  *)
+(* over one shared count (the handle the clone must hold is the one the      *)
+(* function RETURNED, and that one is what its drop function must be given), *)
+(* where the functions cglue itself stores return their argument.  `h` in a  *)
+(* slot names the handle object it holds (0: none / a native allocation),    *)
+(* hrel[h] counts how often handle object h was given to the drop function.  *)
 (***************************************************************************)
 EXTENDS Naturals, Sequences, FiniteSets
 
@@ -26,19 +35,22 @@ CONSTANTS Slot, Alloc, Thread
 Kinds == {"CArc", "Some", "OCArc", "OSome", "Opt", "Arc"}
 MayBeEmpty == {"CArc", "OCArc", "Opt"}
 
-VARIABLES slot,    \* [Slot -> [kind : Kinds \cup {"free"}, a : Alloc \cup {0}, own : Thread]]
+VARIABLES slot,    \* [Slot -> [kind : Kinds \cup {"free"}, a : Alloc \cup {0}, own : Thread, h : Nat]]
           strong,  \* [Alloc -> Nat]  strong count of the allocation
           made,    \* [Alloc -> BOOLEAN]
           keep,    \* [Alloc -> BOOLEAN]  environment retains a std Arc
           vdrops,  \* [Alloc -> Nat]  how often the shared value's destructor ran
-          calls    \* [Alloc -> [clone : Nat, drop : Nat]] stored-function executions
+          calls,   \* [Alloc -> [clone : Nat, drop : Nat]] stored-function executions
+          foreign, \* [Alloc -> BOOLEAN]  made by foreign code: one handle object per clone
+          hrel     \* Seq(Nat): per foreign handle object, how often it was released
 
-vars == <<slot, strong, made, keep, vdrops, calls>>
+vars == <<slot, strong, made, keep, vdrops, calls, foreign, hrel>>
 
-Free(t) == [kind |-> "free", a |-> 0, own |-> t]
+Free(t) == [kind |-> "free", a |-> 0, own |-> t, h |-> 0]
 IsFree(s) == slot[s].kind = "free"
 Owns(t, s) == slot[s].own = t /\ ~IsFree(s)
-Put(s, k, a, t) == [slot EXCEPT ![s] = [kind |-> k, a |-> a, own |-> t]]
+PutH(s, k, a, t, h) == [slot EXCEPT ![s] = [kind |-> k, a |-> a, own |-> t, h |-> h]]
+Put(s, k, a, t) == PutH(s, k, a, t, 0)
 Holders(a) == {s \in Slot : ~IsFree(s) /\ slot[s].a = a}
 
 Init ==
@@ -48,6 +60,8 @@ Init ==
   /\ keep = [a \in Alloc |-> FALSE]
   /\ vdrops = [a \in Alloc |-> 0]
   /\ calls = [a \in Alloc |-> [clone |-> 0, drop |-> 0]]
+  /\ foreign = [a \in Alloc |-> FALSE]
+  /\ hrel = <<>>
 
 (* releasing one strong reference; the value dies with the last one *)
 Release(a) ==
@@ -60,6 +74,17 @@ FromValue(t, s, a, k) ==
   /\ slot' = Put(s, k, a, t)
   /\ made' = [made EXCEPT ![a] = TRUE]
   /\ strong' = [strong EXCEPT ![a] = 1]
+  /\ UNCHANGED <<keep, vdrops, calls, foreign, hrel>>
+
+(* a handle filled in by foreign code through the published layout {instance, clone_fn, drop_fn}: the first handle *)
+(* object of a new foreign allocation                                                                              *)
+FromForeign(t, s, a, k) ==
+  /\ IsFree(s) /\ ~made[a] /\ k \in {"CArc", "Some"}
+  /\ slot' = PutH(s, k, a, t, Len(hrel) + 1)
+  /\ hrel' = Append(hrel, 0)
+  /\ made' = [made EXCEPT ![a] = TRUE]
+  /\ foreign' = [foreign EXCEPT ![a] = TRUE]
+  /\ strong' = [strong EXCEPT ![a] = 1]
   /\ UNCHANGED <<keep, vdrops, calls>>
 
 (* the environment creates a std Arc and keeps it *)
@@ -68,45 +93,52 @@ EnvNewArc(a) ==
   /\ made' = [made EXCEPT ![a] = TRUE]
   /\ keep' = [keep EXCEPT ![a] = TRUE]
   /\ strong' = [strong EXCEPT ![a] = 1]
-  /\ UNCHANGED <<slot, vdrops, calls>>
+  /\ UNCHANGED <<slot, vdrops, calls, foreign, hrel>>
 
 (* From<Arc<T>> / From<Option<Arc<T>>> on a clone of the retained Arc (arc.rs:120-137, 268-276) *)
 FromArc(t, s, a, k) ==
   /\ IsFree(s) /\ keep[a] /\ k \in {"CArc", "Some"}
   /\ slot' = Put(s, k, a, t)
   /\ strong' = [strong EXCEPT ![a] = @ + 1]
-  /\ UNCHANGED <<made, keep, vdrops, calls>>
+  /\ UNCHANGED <<made, keep, vdrops, calls, foreign, hrel>>
 
 (* CArc::default() and CArc::from(None::<Arc<T>>) *)
 MakeEmpty(t, s) ==
   /\ IsFree(s)
   /\ slot' = Put(s, "CArc", 0, t)
-  /\ UNCHANGED <<strong, made, keep, vdrops, calls>>
+  /\ UNCHANGED <<strong, made, keep, vdrops, calls, foreign, hrel>>
 
 (* the environment drops its retained Arc *)
 EnvDropArc(a) ==
   /\ keep[a]
   /\ keep' = [keep EXCEPT ![a] = FALSE]
   /\ Release(a)
-  /\ UNCHANGED <<slot, made, calls>>
+  /\ UNCHANGED <<slot, made, calls, foreign, hrel>>
 
 (* Clone (arc.rs:26-33, 278-285): an empty CArc clones to empty without any call; *)
 (* otherwise the stored clone function runs once and the count goes up by one.    *)
+(* The clone holds the handle the function returned: for a foreign allocation a    *)
+(* fresh handle object, never the source's.                                        *)
 Clone(t, s, d) ==
   /\ Owns(t, s) /\ IsFree(d) /\ slot[s].kind \in {"CArc", "Some", "OCArc", "OSome"}
-  /\ slot' = Put(d, slot[s].kind, slot[s].a, t)
   /\ IF slot[s].a = 0
-       THEN UNCHANGED <<strong, calls>>
+       THEN /\ slot' = Put(d, slot[s].kind, 0, t)
+            /\ UNCHANGED <<strong, calls, hrel>>
        ELSE /\ strong' = [strong EXCEPT ![slot[s].a] = @ + 1]
             /\ calls' = [calls EXCEPT ![slot[s].a].clone = @ + 1]
-  /\ UNCHANGED <<made, keep, vdrops>>
+            /\ IF foreign[slot[s].a]
+                 THEN /\ slot' = PutH(d, slot[s].kind, slot[s].a, t, Len(hrel) + 1)
+                      /\ hrel' = Append(hrel, 0)
+                 ELSE /\ slot' = Put(d, slot[s].kind, slot[s].a, t)
+                      /\ UNCHANGED hrel
+  /\ UNCHANGED <<made, keep, vdrops, foreign>>
 
 (* take (arc.rs:61-67): moves the resources out, leaves the empty CArc *)
 Take(t, s, d) ==
   /\ Owns(t, s) /\ IsFree(d) /\ slot[s].kind \in {"CArc", "OCArc"}
-  /\ slot' = [slot EXCEPT ![d] = [kind |-> slot[s].kind, a |-> slot[s].a, own |-> t],
-                          ![s] = [kind |-> slot[s].kind, a |-> 0, own |-> t]]
-  /\ UNCHANGED <<strong, made, keep, vdrops, calls>>
+  /\ slot' = [slot EXCEPT ![d] = [kind |-> slot[s].kind, a |-> slot[s].a, own |-> t, h |-> slot[s].h],
+                          ![s] = [kind |-> slot[s].kind, a |-> 0, own |-> t, h |-> 0]]
+  /\ UNCHANGED <<strong, made, keep, vdrops, calls, foreign, hrel>>
 
 (* pure re-labelling conversions: no count changes, no calls                  *)
 (*  CArc -> Option<CArcSome> (transpose, arc.rs:84-86,159-176)               *)
@@ -119,19 +151,20 @@ Convert(t, s, to) ==
      \/ slot[s].kind = "Some" /\ to \in {"CArc", "OSome"}
      \/ slot[s].kind = "Opt"  /\ to = "CArc"
   /\ slot' = [slot EXCEPT ![s].kind = to]
-  /\ UNCHANGED <<strong, made, keep, vdrops, calls>>
+  /\ UNCHANGED <<strong, made, keep, vdrops, calls, foreign, hrel>>
 
 (* unwrap a Some(..) option into the CArcSome it holds *)
 Unwrap(t, s) ==
   /\ Owns(t, s) /\ slot[s].kind = "Opt" /\ slot[s].a # 0
   /\ slot' = [slot EXCEPT ![s].kind = "Some"]
-  /\ UNCHANGED <<strong, made, keep, vdrops, calls>>
+  /\ UNCHANGED <<strong, made, keep, vdrops, calls, foreign, hrel>>
 
-(* into_arc (arc.rs:255-259): forget the handle, rebuild the std Arc: no call, no count change *)
+(* into_arc (arc.rs:255-259): forget the handle, rebuild the std Arc: no call, no count change. *)
+(* Its safety contract: only for an allocation this module's Arc made - never a foreign one.    *)
 IntoArc(t, s) ==
-  /\ Owns(t, s) /\ slot[s].kind = "Some"
+  /\ Owns(t, s) /\ slot[s].kind = "Some" /\ ~foreign[slot[s].a]
   /\ slot' = [slot EXCEPT ![s].kind = "Arc"]
-  /\ UNCHANGED <<strong, made, keep, vdrops, calls>>
+  /\ UNCHANGED <<strong, made, keep, vdrops, calls, foreign, hrel>>
 
 (* Drop (arc.rs:35-41, 287-293): empty handles are a no-op; otherwise the stored   *)
 (* drop function runs once (std Arc: the std destructor) and one reference goes.   *)
@@ -143,16 +176,18 @@ Drop(t, s) ==
        ELSE /\ Release(slot[s].a)
             /\ calls' = IF slot[s].kind = "Arc" THEN calls
                         ELSE [calls EXCEPT ![slot[s].a].drop = @ + 1]
-  /\ UNCHANGED <<made, keep>>
+  /\ hrel' = IF slot[s].h = 0 THEN hrel ELSE [hrel EXCEPT ![slot[s].h] = @ + 1]
+  /\ UNCHANGED <<made, keep, foreign>>
 
 (* hand a handle to another thread (CArc<T: Send + Sync> is Send) *)
 Give(t, s, u) ==
   /\ Owns(t, s) /\ u # t
   /\ slot' = [slot EXCEPT ![s].own = u]
-  /\ UNCHANGED <<strong, made, keep, vdrops, calls>>
+  /\ UNCHANGED <<strong, made, keep, vdrops, calls, foreign, hrel>>
 
 Do(e) ==
   \/ e.op = "FromValue"  /\ FromValue(e.t, e.s, e.a, e.k)
+  \/ e.op = "FromForeign" /\ FromForeign(e.t, e.s, e.a, e.k)
   \/ e.op = "EnvNewArc"  /\ EnvNewArc(e.a)
   \/ e.op = "FromArc"    /\ FromArc(e.t, e.s, e.a, e.k)
   \/ e.op = "MakeEmpty"  /\ MakeEmpty(e.t, e.s)
@@ -167,12 +202,15 @@ Do(e) ==
 
 (***************************************************************************)
 (* Observation: flavour and target of every slot (the target is read by     *)
-(* dereferencing the real handle), the real strong count where the          *)
-(* environment can read it, destructor counts, stored-function call counts. *)
+(* dereferencing the real handle) and the handle object it holds, the real  *)
+(* strong count where the environment can read it (a retained std Arc; the  *)
+(* foreign side's own count), destructor counts, stored-function call       *)
+(* counts, release counts of the foreign handle objects.                    *)
 (***************************************************************************)
 Proj ==
-  [ slots  |-> [s \in Slot |-> <<slot[s].kind, slot[s].a>>],
-    strong |-> [a \in Alloc |-> IF keep[a] THEN strong[a] ELSE 0],
+  [ slots  |-> [s \in Slot |-> <<slot[s].kind, slot[s].a, slot[s].h>>],
+    strong |-> [a \in Alloc |-> IF keep[a] \/ foreign[a] THEN strong[a] ELSE 0],
+    hrel   |-> hrel,
     vdrops |-> [a \in Alloc |-> vdrops[a]],
     calls  |-> [a \in Alloc |-> <<calls[a].clone, calls[a].drop>>] ]
 
@@ -183,6 +221,8 @@ TypeOK ==
   /\ \A s \in Slot : /\ slot[s].kind \in Kinds \cup {"free"}
                      /\ slot[s].a \in Alloc \cup {0}
                      /\ slot[s].own \in Thread
+                     /\ slot[s].h \in 0..Len(hrel)
+                     /\ (slot[s].h # 0) <=> (slot[s].a # 0 /\ foreign[slot[s].a])
                      /\ (slot[s].a = 0 => slot[s].kind \in MayBeEmpty \cup {"free"})
   /\ \A a \in Alloc : strong[a] \in Nat /\ vdrops[a] \in Nat
 
@@ -197,5 +237,11 @@ DroppedIffUnreferenced ==
 
 (* nobody holds a dead allocation *)
 NoDangling == \A a \in Alloc : vdrops[a] > 0 => Holders(a) = {}
+
+(* foreign handle objects: each is given to the drop function at most once, is live exactly while one slot holds it, *)
+(* and no two slots hold the same one                                                                               *)
+HandleOnce == \A h \in DOMAIN hrel : hrel[h] <= 1
+HandleHeld == \A h \in DOMAIN hrel : (hrel[h] = 0) <=> (\E s \in Slot : ~IsFree(s) /\ slot[s].h = h)
+HandleNoAlias == \A s1, s2 \in Slot : (s1 # s2 /\ slot[s1].h # 0) => slot[s1].h # slot[s2].h
 
 =============================================================================
